@@ -124,6 +124,7 @@ def replay(recs):
             case = {"center": c, "hradius": h, "vradius": v}
             mk = lambda: g.Ellipse(g.Point(*c), h, v)  # noqa: E731
             chk("Ellipse", st, case, r["M"], mk, lambda x: mcls(x, r["M"]))
+            chk("Ellipse/center-scaled-representative", st, case, r["M"], lambda: g.Ellipse(P([-2 * c[0], -2 * c[1], -2]), h, v), lambda x: mcls(x, r["M"]))
             chk("Ellipse.contains", st, case, "exactly the points of the locus",
                 lambda: (np.asarray(mk().contains(g.PointCollection(np.array(r["on"])))) if r["on"] else np.array([True]),
                          np.asarray(mk().contains(g.PointCollection(np.array(r["off"])))) if r["off"] else np.array([False])),
@@ -144,6 +145,7 @@ def replay(recs):
             case = {"center": c, "radius": r["r"]}
             mk = lambda: g.Sphere(g.Point(*c), rad)  # noqa: E731
             chk("Sphere", st, case, r["M"], mk, lambda x: mcls(x, r["M"]))
+            chk("Sphere/center-scaled-representative", st, case, r["M"], lambda: g.Sphere(P([-2 * x for x in c] + [-2]), rad), lambda x: mcls(x, r["M"]))
             chk("Sphere.contains", st, {**case, "p": r["pt"]}, True, lambda: mk().contains(P(r["pt"])), lambda x: bool(x))
             chk("Sphere.contains(off)", st, {**case, "p": c + [1]}, False, lambda: mk().contains(g.Point(*c)), lambda x: not bool(x))
             chk("Sphere.center", st, case, c, lambda: mk().center, lambda x: same_class(x.array, c + [1]))
@@ -156,6 +158,7 @@ def replay(recs):
             case = {"vertex": V, "base_center": C, "radius": r["r"]}
             mk = lambda: g.Cone(g.Point(*V), g.Point(*C), rad)  # noqa: E731
             chk("Cone", st, case, r["M"], mk, lambda x: mcls(x, r["M"]))
+            chk("Cone/scaled-representatives", st, case, r["M"], lambda: g.Cone(P([-x for x in V] + [-1]), P([3 * x for x in C] + [3]), rad), lambda x: mcls(x, r["M"]))
             chk("Cone.contains(rim point)", st, {**case, "p": r["rim"]}, True, lambda: mk().contains(P(r["rim"])), lambda x: bool(x))
             chk("Cone.contains(vertex)", st, case, True, lambda: mk().contains(g.Point(*V)), lambda x: bool(x))
             chk("Cone.contains(base centre)", st, case, False, lambda: mk().contains(g.Point(*C)), lambda x: not bool(x))
@@ -165,6 +168,7 @@ def replay(recs):
             case = {"center": C, "direction": dd, "radius": r["r"]}
             mk = lambda: g.Cylinder(g.Point(*C), g.Point(*dd), rad)  # noqa: E731
             chk("Cylinder", st, case, r["M"], mk, lambda x: mcls(x, r["M"]))
+            chk("Cylinder/scaled-representatives", st, case, r["M"], lambda: g.Cylinder(P([2 * x for x in C] + [2]), P([-3 * x for x in dd] + [-3]), rad), lambda x: mcls(x, r["M"]))
             chk("Cylinder.contains(rim point)", st, {**case, "p": r["rim"]}, True, lambda: mk().contains(P(r["rim"])), lambda x: bool(x))
             chk("Cylinder.contains(shifted rim point)", st, {**case, "p": r["rim2"]}, True, lambda: mk().contains(P(r["rim2"])), lambda x: bool(x))
             chk("Cylinder.contains(centre)", st, case, False, lambda: mk().contains(g.Point(*C)), lambda x: not bool(x))
